@@ -1,4 +1,5 @@
 SPECIFICATION Spec
 CONSTANTS Tier = "thorough"
 INVARIANT OptimaAreOptimal
+INVARIANT StripsAreHomogeneous
 CHECK_DEADLOCK FALSE
